@@ -78,8 +78,13 @@ THEOREMS = [
     "Spydr.Eblif.pin_mirror",
     "Spydr.Eblif.pin_mirror_elab",
     "Spydr.Eblif.pin_mirror_bits",
+    "Spydr.Eblif.eblif_roundtrip_full",
+    "Spydr.Eblif.child_block_step",
+    "Spydr.Eblif.header_inout",
+    "Spydr.Eblif.conn_alias_closed_form",
+    "Spydr.Eblif.written_joins_are_net",
 ]
-MODULES = ["Spydr.Eblif.Props.C18", "Spydr.Eblif.Props.C18RoundTrip", "Spydr.Eblif.Props.C18ReadOk", "Spydr.Eblif.Props.C18Ports", "Spydr.Eblif.Props.C18BlackBox", "Spydr.Eblif.Props.C18FullParse", "Spydr.Eblif.Props.C18GenDefs", "Spydr.Eblif.Props.C18Mirror"]
+MODULES = ["Spydr.Eblif.Props.C18", "Spydr.Eblif.Props.C18RoundTrip", "Spydr.Eblif.Props.C18ReadOk", "Spydr.Eblif.Props.C18Ports", "Spydr.Eblif.Props.C18BlackBox", "Spydr.Eblif.Props.C18FullParse", "Spydr.Eblif.Props.C18GenDefs", "Spydr.Eblif.Props.C18Mirror", "Spydr.Eblif.Props.C18Full"]
 
 FINDING = {
     "blackbox-ports": "eblif.blackbox-pins-keep-wire-of-removed-cable",
